@@ -10,6 +10,7 @@ if [ -n "${VP_RUN_REPO:-}" ]; then
   export VERIF_REPO="$VP_RUN_REPO"
   echo "building against $VP_RUN_REPO"
 fi
+mkdir -p target
 for id in $IDS; do
   s=$(date +%s)
   VERIF_DUMP_FAILS=target/fails-$id-$TIER.jsonl ./check $id --tier $TIER > target/out-$id-$TIER.log 2>&1; rc=$?
